@@ -53,6 +53,7 @@ type brokerGen struct {
 	pid    int
 	// known-finding classes confined to dedicated episodes
 	allowEmpty, allowDollar, allowOverlap, allowBadFilter bool
+	thorough bool
 	out2 map[int][]int // subscriber conn -> QoS 2 ids the broker sent it (for PUBREC/PUBCOMP answers)
 }
 
@@ -94,6 +95,16 @@ func (g *brokerGen) payload() string {
 		b := make([]byte, 1+r.Intn(5))
 		r.Read(b)
 		return hexOf(b)
+	case k == 18 && r.Intn(6) == 0:
+		// large payloads: several read blocks, wrapping both rings; thorough runs go close to the
+		// packet limit (buffer size minus one 8 KiB read block)
+		n := 9000 + r.Intn(60000)
+		if g.thorough && r.Intn(4) == 0 {
+			n = 200000 + r.Intn(40000)
+		}
+		b := make([]byte, n)
+		r.Read(b)
+		return hexOf(b)
 	default:
 		b := make([]byte, 100+r.Intn(3000))
 		r.Read(b)
@@ -133,6 +144,9 @@ func (g *brokerGen) connect() {
 	will := "~"
 	if r.Intn(100) < g.p.willPct {
 		wp := g.payload()
+		if len(wp) > 2*60000 { // a will message is a length-prefixed field: at most 65535 bytes
+			wp = wp[:2*60000]
+		}
 		will = fmt.Sprintf("%s:%s:%d:%d", hexStr(g.name()), wp, r.Intn(3), r.Intn(2))
 	}
 	g.emit("first %d connect %s 4 0 %d %s 0 0 %s ~ ~ %d 1", id, hexStr("MQTT"), b2i(clean), will, hexStr(cid), 30)
@@ -201,7 +215,7 @@ func (g *brokerGen) remove(c *bConn) {
 
 func genBroker(p brokerProfile, seed int64, n int, tier string, w *bufio.Writer) {
 	r := rand.New(rand.NewSource(seed))
-	g := &brokerGen{r: r, w: w, p: p}
+	g := &brokerGen{r: r, w: w, p: p, thorough: tier == "thorough"}
 	total := p.wConnect + p.wSub + p.wUnsub + p.wPub + p.wRel + p.wAck + p.wPing + p.wDisc + p.wClose + p.wSrvPub + p.wSrvSub + p.wSrvUnsub + p.wBadFirst + p.wBadConnect
 	for done := 0; done < n; {
 		g.emit("reset")
